@@ -52,6 +52,11 @@ P = {
         note="boto3 replaced by a recording fake; transport outside the model.",
         tech="Coq: theorems on the decision function + computation on translator-generated templates/guards; exhaustive configuration enumeration",
         ref="DESIGN.md section 5 C18"),
+    "C17": dict(
+        text="Theorems over Q for every history: each whole percent p>=1 gets a convex combination (weight = observed percent / p) of the last observed margin and the next batch margin, within [-1,1]; before the first observation = first observed margin; p=0 -> 0; domain 0..floor(latest percent); correction = final - imputed; irregular (non-monotone or impossible batch) <-> 101 all-missing rows with the error type; a missing or distant correction never enters the extrapolation mean. Correspondence: generated histories (all irregularity kinds, int and float columns) through compute_versioned_margin_estimate, frames compared inside Coq.",
+        note="Exact-rational model of binary64 inputs, 1e-9 relative; percents coinciding with a re-scaled observation are not compared (counted); the extrapolation filter is modelled from source text only.",
+        tech="Coq proof over Q (field/nra) + differential correspondence on generated version histories",
+        ref="DESIGN.md section 5 C17"),
 }
 
 REASON_NOT_BUILT = "check not built yet in this development stage (planned: see DESIGN.md section 5)"
